@@ -71,9 +71,18 @@ def one_history(run, case, name, sn, U, Ug, m, j, later, rng):
     for ci, (kind, cut) in enumerate(cuts):
         fired = {}
         def trig(ev, ctx, kind=kind, cut=cut, fired=fired):
-            if 'x' in fired or ev[0] != 'GUESS':
+            if 'x' in fired:
                 return
-            if (kind == 'first' and ev[3] == m and ev[4] == j) or (kind == 'later' and ev[1] == cut):
+            if ev[0] in ('POP', 'CREATE'):
+                # the quit arrives right after a pre-terminal was popped (later cut ['pop', k]: the loop sees the flag and saves), or after the loop has looked
+                # at the flag and before the first guess of the pre-terminal (j == 0 / later cut ['create', k])
+                if (kind == 'first' and j == 0 and ev[0] == 'CREATE' and ev[1] - 1 == m) or \
+                   (kind == 'later' and isinstance(cut, list) and ev[0] == cut[0].upper() and ev[1] == cut[1]):
+                    fired['x'] = ctx.deliver('q')
+                return
+            if ev[0] != 'GUESS':
+                return
+            if (kind == 'first' and j and ev[3] == m and ev[4] == j) or (kind == 'later' and isinstance(cut, int) and ev[1] == cut):
                 fired['x'] = ctx.deliver('q')
         r = session.run_main(['-r', name, '-s', sn] + (['--load'] if ci else []), trigger=trig)
         run.ev('main_runs')
@@ -185,21 +194,23 @@ def check_case(run, case, tier='quick'):
             if n == 0:
                 continue
             if n <= 40 or tier == 'thorough' and n <= 120:
-                js = list(range(1, n + 1))
+                js = list(range(0, n + 1))
             else:
                 lv = U[m][2]
                 bnd = {1, 2, n - 1, n}
                 for t in range(1, n):
                     if len(lv[t]) != len(lv[t - 1]) or lv[t][:1] != lv[t - 1][:1]:
                         bnd.update({t, t + 1})
-                js = sorted(x for x in bnd | set(rng.sample(range(1, n + 1), 12)) if 1 <= x <= n)
+                js = sorted(x for x in bnd | {0} | set(rng.sample(range(1, n + 1), 12)) if 0 <= x <= n)
             for j in js:
                 ncyc = rng.choice([0, 0, 1, 1, 2, 3])
                 later = []
                 for c in range(ncyc):
-                    later.append(rng.randint(1, max(1, min(12, len(Ug)))))
+                    later.append(rng.randint(1, max(1, min(12, len(Ug)))) if rng.random() < 0.7 else [rng.choice(['pop', 'create', 'create']), rng.randint(1, 3)])
                 ok = one_history(run, case, name, sn, U, Ug, m, j, later, rng)
                 nt = 0 < j < n
+                if j == 0:
+                    run.ev('histories_quit_before_first_guess_of_the_level')
                 run.case(h([case['spec']['omen'], case['spec']['base'], m, j, later]) if nt else None)
                 run.add_to_set('cut_points', h([case['hseed'], m, j]))
                 if not ok and run.violations[-1]['mech'] is None:
@@ -223,7 +234,7 @@ def markov_stress_spec(rng):
     return {'encoding': 'utf-8', 'uuid': 'mstress-%08x' % rng.getrandbits(32), 'base': [['M', 0.5], ['D2', 0.5]], 'prince': [], 'terms': {'D2': rows}, 'omen': om}
 
 def run(run, rng):
-    run.required_events = ['main_runs', 'resumes', 'histories', 'histories_cut_strictly_inside_level', 'requit_inside_remainder']
+    run.required_events = ['main_runs', 'resumes', 'histories', 'histories_cut_strictly_inside_level', 'requit_inside_remainder', 'histories_quit_before_first_guess_of_the_level']
     run.min_distinct = 20
     run.assumptions = ['the remainder must come back in the order of the uninterrupted run (the generator is deterministic per C10)',
                        'a full replay of a level is tolerated only when its probability equals a saved position (C08 tie allowance)',
